@@ -5,6 +5,7 @@ import (
 	"fmt"
 	"sort"
 	"strings"
+	"time"
 
 	"github.com/Trendyol/go-dcp/models"
 	"github.com/couchbase/gocbcore/v10"
@@ -113,3 +114,45 @@ func twoSessionsMain() {
 
 var _ = strings.Contains
 var _ gocbcore.SimAnswer
+
+// c03_ephemeral: the bucket is ephemeral - no copy ever reports a persisted sequence number, the library
+// switches rollback mitigation off for it although the configuration leaves it enabled (the default). Every
+// event the server sends is delivered, in the first session and in the one after a rebalance.
+func init() {
+	scenarios["c03_ephemeral"] = func(raw json.RawMessage) *vrt.Scenario {
+		return &vrt.Scenario{Name: "c03_ephemeral", FreeChoices: true, NoTimerAlt: true, MaxSteps: 400000, Main: func() {
+			resetGlobals()
+			rebalance := vrt.Choose(2, true, "then-a-rebalance") == 1
+			o := EnvOpts{Vbs: 2, CheckpointType: "manual", Mitigation: true, BucketType: "ephemeral", WrapMeta: true, RebalanceDelay: time.Second}
+			c := NewCluster(&o)
+			for vb := uint16(0); vb < 2; vb++ {
+				c.Append(vb, marker(1, 2), symbolPacket("M", 1), symbolPacket("D", 2))
+			}
+			e := NewEnv(c, o)
+			e.Cons.AutoAck = true
+			e.Stream.Open()
+			vrt.Sleep(3 * time.Second)
+			vrt.Quiesce()
+			if n := len(e.Cons.Events); n != 4 {
+				vrt.Failf("ephemeral bucket, first session: %d of the 4 events the server sent were delivered", n)
+			}
+			if rebalance {
+				e.Stream.Save()
+				e.Stream.Rebalance()
+				vrt.Sleep(3 * time.Second)
+				vrt.Quiesce()
+				n0 := len(e.Cons.Events)
+				for vb := uint16(0); vb < 2; vb++ {
+					c.Append(vb, marker(3, 3), symbolPacket("M", 3))
+				}
+				vrt.Sleep(3 * time.Second)
+				vrt.Quiesce()
+				if n := len(e.Cons.Events) - n0; n != 2 {
+					vrt.Failf("ephemeral bucket, session after a rebalance: %d of the 2 events the server sent were delivered", n)
+				}
+			}
+			vrt.SetOutcome(fmt.Sprintf("rebalance=%v", rebalance))
+			e.Stream.Close(true)
+		}}
+	}
+}
